@@ -39,7 +39,7 @@ class CallGraph:
         if k == 'g' and ref.get('fn'):
             return {ref['v']}
         if k == 'g' and ref.get('alias'):
-            return {self.lib.aliases.get(ref['v'], ref['v'])}
+            return {ref['v']}  # keep the alias name; Library.resolve()/fn() follow it
         if k == 'n' or k == 'u':
             return set()
         if k == 'i':
